@@ -1,5 +1,5 @@
 /-
-Model of `SchemaField.validate_value` (asyncfix/protocol/schema.py, as of /repo commit 31078f3) and
+Model of `SchemaField.validate_value` (asyncfix/protocol/schema.py, as of /repo commit 31078f3 + notes/candidate_fix_lex_multivalue_enum.diff) and
 of the validators it dispatches to, branch for branch including the branches that raise.
 
   validate_value            ↦ validateValue      (guard, enumerated `values`, type dispatch, special cases)
@@ -171,11 +171,26 @@ def validateTyped (cfg : Cfg) (t : FType) (s : Str) : VRes :=
 def specialCases (tag16 : Bool) (s : Str) (prev : VRes) : VRes :=
   if tag16 && s == [48] then .pass else prev
 
+/-- `self.ftype.upper() in {"MULTIPLEVALUESTRING", "MULTIPLESTRINGVALUE"}` -/
+def isMultiName (ftype : String) : Bool :=
+  let t := ftype.toUpper
+  t == "MULTIPLEVALUESTRING" || t == "MULTIPLESTRINGVALUE"
+
+/-- `value.split(" ")`: split at every single blank, empty tokens kept -/
+def splitBlank : Str → List Str
+  | [] => [[]]
+  | c :: cs =>
+    if c = 32 then [] :: splitBlank cs
+    else match splitBlank cs with
+      | t :: ts => (c :: t) :: ts
+      | [] => [[c]]
+
 /-- a schema field as far as validate_value reads it: `self.tag == "16"`, the dispatch branch of
-`self.ftype`, the keys of `self.values` -/
+`self.ftype`, whether the type name is one of the two MultipleValueString spellings, the keys of `self.values` -/
 structure Field where
   tag16 : Bool := false
   ftype : FType
+  multi : Bool := false
   values : List Str := []
 
 /-- `SchemaField.validate_value(value)` -/
@@ -185,7 +200,9 @@ def validateValue (cfg : Cfg) (f : Field) (v : PyVal) : Res :=
   | .str s =>
     if s.isEmpty then .fme               -- not value
     else if !f.values.isEmpty then
-      if f.values.contains s then .ok else .fme
+      -- enumerated MultipleValueString: every blank-separated token must be enumerated
+      let isMember := if f.multi then (splitBlank s).all f.values.contains else f.values.contains s
+      if isMember then .ok else .fme
     else
       match validateTyped cfg f.ftype s with
       | .raised k => .raised k
